@@ -5,7 +5,8 @@
    Decoder classes (shapes defined precisely at the top of harness/c03/srcfacts.go):
      CDelegating     the reader-path decoder is [header guards;] readBoxBody; NewFixedSliceReader; return S(hdr, startPos, sr) with S
                      the SR decoder registered under the same key (and S repeats the guards)
-     CContainerTwin  both decoders start with DecodeContainerChildren / DecodeContainerChildrenSR(hdr, startPos+8, startPos+hdr.Size, ..)
+     CContainerTwin  (a composite literal of the SR decoder may additionally initialise slice fields with `make([]T, 0, n)`: nil == empty)
+                     both decoders start with DecodeContainerChildren / DecodeContainerChildrenSR(hdr, startPos+8, startPos+hdr.Size, ..)
                      and are otherwise the same text up to local names (df_accerr: S ends `return x, sr.AccError()`, R `return x, nil`)
      CContainerBody  the reader-path decoder reads the body itself (io.ReadAll(io.LimitReader(..payloadLen()))), then is the text of S on a
                      private reader (moov, moof; df_accerr as above)
@@ -51,16 +52,17 @@ Definition c03_separate_proved : list string :=
   ; "DecodeAudioSampleEntry" (* mp4a enca ac-3 ec-3: C03_entry_pairs_agree_canonical *) ].
 (* separately written pairs that are explored only (both paths run on every harvested / generated box by the search) *)
 Definition c03_separate_explored : list string :=
-  [ "DecodeVttc" ].
+  [ ].
 (* delegating pairs whose SR decoder is NOT position-relative, with their own pair theorem *)
 Definition c03_delegating_nonrelative_proved : list string :=
   [ "DecodeVisualSampleEntry"  (* C03_vse_pair_agree_canonical *)
   ; "DecodeTrep"               (* C03_counted_pairs_agree_canonical *)
-  ; "DecodeWvtt"               (* C03_entry_pairs_agree_canonical *) ].
+  ; "DecodeWvtt"               (* C03_entry_pairs_agree_canonical *)
+  ; "DecodeEvte"; "DecodeStpp" (* C03_xentry_pairs_agree_canonical *) ].
 (* delegating pairs whose SR decoder is NOT position-relative (SetPos, GetPos outside differences, LookAhead, children decoded with
    DecodeBoxSR, a decoder table): the delegation shape is still REQUIRED of them; that the SR decoder behaves the same on a private body reader is explored *)
 Definition c03_delegating_nonrelative_explored : list string :=
-  [ "DecodeEsds"; "DecodeEvte"; "DecodeMeta"; "DecodeSgpd"; "DecodeStpp" ].
+  [ "DecodeEsds"; "DecodeMeta"; "DecodeSgpd" ].
 (* container twins whose SR decoder additionally returns sr.AccError() (edts sinf stbl): on canonical strings the test never fires
    (C03_twin_accerr_canonical); none is left as explored *)
 Definition c03_twin_accerr_explored : list string := [ ].
